@@ -150,6 +150,9 @@ def check_case(case, ctx):
 
     def versus_unpruned(w, r, what):
         if r[0] > r_un[0]:
+            if known():  # same root cause: the unpruned non-emitting search loses the good chain, here ending in an early stop
+                classes.append("excluded:KF-C07-NE")
+                return
             raise Violation("pruned-longer", f"{what} width {w} matches {r[0]} observations, the unpruned run {r_un[0]}")
         if r[0] == r_un[0] == n and r[1] > r_un[1] + 1e-9 * max(1.0, abs(r_un[1])):
             if known():
